@@ -53,7 +53,9 @@ def evaluate(ctx, e):
     if not isinstance(rc0, int) or not (rc0 & 4):
         return {"evaluations": 1, "nontrivial_count": 0, "outcomes": {"edit-not-reported-at-all": 1}, "failures": []}
     rc, d1, err = pc.run(ctx, "abidw", [v1])
-    rc, d2, err = pc.run(ctx, "abidw", [v2])
+    rc2, d2, err2 = pc.run(ctx, "abidw", [v2])
+    if rc != 0 or rc2 != 0 or b"S_0" not in d1 or b"S_0" not in d2:
+        raise core.HarnessError("abidw failed on the pair: rc=%s/%s out=%d/%d bytes err=%r %r" % (rc, rc2, len(d1), len(d2), err[-200:], err2[-200:]))
     size1, off1 = _layout(d1, "S_0")
     size2, off2 = _layout(d2, "S_0")
     m1 = [m for m, t, b in [d for d in u1.types if d[1] == "S_0"][0][2]]
